@@ -25,13 +25,16 @@ ASSUMPTIONS = ['vf.calcq exact Fraction / Gaussian-rational arithmetic and the p
                'envelope: polynomials, P(x)e^{kx}cos/sin(wx+phi) with |k|,|w| <= 8, rational functions at distance >= 1/2 from their poles; '
                'smoothness max(|f^(n+1)|,|f^(n+2)|) <= 2^10 max(1,|f^(n)|) at the point; user-chosen h only where the difference formula is exact '
                '(polynomial degree <= n) or h <= 2^-(p/2+12) central; method=quad only while n! max|f| / r^n <= 2^10 max(1,|f^(n)|) on the contour']
-SHARD_TIMEOUT = {'quick': 420, 'thorough': 3000}
+_TS = float(__import__('os').environ.get('VERIF_DEV_TIMEOUT_SCALE', '1'))     # development only (overloaded machine)
+SHARD_TIMEOUT = {'quick': int(420 * _TS), 'thorough': int(3000 * _TS)}
 LEVEL_TEXT = ('exploration: ~6*10^3 (quick) / ~8*10^4 (thorough) derivative / Taylor / Pade / difference computations of the real code '
               'decided against exact rational or reference closed forms')
 LEVEL_NOTE = ('trusted base: vf/calcq.py, Fraction arithmetic, reference release 1.3.0 for exp/cos/sin/gamma closed forms at 2p+200 bits; '
               'functions / points / option combinations not generated are not covered')
 TECHNIQUE = 'runtime monitoring: closed-form oracle on every observed result of the differentiation entry points; exact residual monitor for pade'
 
+import os
+DEV_SCALE = float(os.environ.get('VERIF_DEV_SCALE', '1'))      # development only (mutant sweeps on a busy machine); 1 in every registered command
 TOL = 10
 SMOOTH = 10       # log2 of the admitted growth of the next two derivatives relative to max(1,|f^(n)|)
 KQUAD = 10
@@ -333,6 +336,13 @@ def envelope_1d(fn, x0, n, opts, p, o, nxt, kind='diff'):
             why.append('addprec below 5')
         if opts.get('relative') and x0 == (F(0), F(0)):
             why.append('relative step at x = 0')
+        if not opts.get('relative') and 'h' not in opts and Q.cabs2(x0) > 1:
+            # absolute step 2^-(p+addprec) at a large point: the n-th difference cancels about n*mag(x) more bits than the
+            # (p+2 addprec)(n+1) working bits of hsteps provide for; the documentation prescribes relative=True there
+            mg = int(math.ceil(0.5 * Q.log2f(Q.cabs2(x0))))
+            ap = opts.get('addprec', 10)
+            if n * mg > ap * (n + 2) - 10:
+                why.append('absolute step at a large point (documented remedy: relative=True)')
         dr = opts.get('direction')
         if isinstance(dr, list) and deg is None and d['fam'] == 'ratl':
             why.append('complex direction on a rational function')
@@ -822,7 +832,7 @@ WITNESSES = [
 
 
 def shards(tier, seed):
-    n = 420 if tier == 'quick' else 5200
+    n = int((420 if tier == 'quick' else 5200) * DEV_SCALE)
     return [{'n': n} for _ in range(N_SHARDS)]
 
 
